@@ -1181,6 +1181,28 @@ func (m *clusterImpl) Do(line string) string {
 			time.Sleep(5 * time.Millisecond)
 		}
 		return verdict
+	case "consul-acqex": // consul-acqex <k>: node k is handed a session that is alive but does not hold the key (another session took the key over in between): the real Consul leaser's AcquireExisting
+		if len(f) != 2 {
+			return "bad-op"
+		}
+		n, k := m.node(f[1])
+		if n == nil || !n.up || m.consul == nil || n.leaser == nil || n.leaser.inner == nil {
+			return "bad-op"
+		}
+		id := m.consul.strangerSession(k)
+		actx, acancel := context.WithTimeout(context.Background(), 2*time.Second)
+		defer acancel()
+		lease, err := n.leaser.inner.AcquireExisting(actx, id)
+		switch {
+		case err == nil && lease != nil:
+			_ = lease.Close()
+			return "acquired"
+		case errors.Is(err, litefs.ErrPrimaryExists):
+			return "primary-exists"
+		case errors.Is(err, litefs.ErrLeaseExpired):
+			return "lease-expired"
+		}
+		return "err"
 	case "wait-ms": // wait-ms <n>: real time passes (a time-out of the code under test runs out)
 		if len(f) != 2 {
 			return "bad-op"
